@@ -54,4 +54,31 @@ def refusal (tokenConfigured : Bool) (reqTok : String) : Resp :=
   if tokenConfigured then .error errAuthNeededStatus (errJSON (badTokenDetail reqTok))
   else .error errAuthNeededStatus (errJSON notConfiguredDetail)
 
+/-! ## Reloads
+
+`QueryAuthToken` is reloadable configuration.  `queryTokenChecker` reads it inside the request
+closure (`r.Config.GetQueryAuthToken()` per request), so the token that counts is the one in force
+**when the request is served**, however long ago the middleware instance was built. -/
+
+inductive Op where
+  | reload (tok : String)           -- the configuration is reloaded with this `QueryAuthToken`
+  | request (vals : List String)    -- a `/query/` request with these values of the token header
+  deriving Repr
+
+/-- state = the configured token in force; a request is answered against it -/
+def step (cfgTok : String) : Op → String × Option Resp
+  | .reload tok => (tok, none)
+  | .request vals => (cfgTok, some (respond cfgTok vals))
+
+/-- the token in force after a history that started with `t0` configured -/
+def tokenAfter (t0 : String) (ops : List Op) : String := ops.foldl (fun t o => (step t o).1) t0
+
+/-- the responses of a history, in order -/
+def run (t0 : String) : List Op → List Resp
+  | [] => []
+  | o :: os =>
+    match (step t0 o).2 with
+    | some resp => resp :: run (step t0 o).1 os
+    | none => run (step t0 o).1 os
+
 end Refinery.Model.QueryAuth
